@@ -1,1 +1,260 @@
-import GeoModel
+/-
+  Property C18 (and the series part of C11): `processPoints` (bounding rectangle, convex
+  flag, clockwise flag) and the NumSegments/SegmentAt rule of GeoModel.Series equal the
+  executable specification of GeoModel.Driver / GeoModel.Spec for ALL vertex sequences,
+  and the specification does not depend on the start vertex or on the repeated closing
+  vertex.
+-/
+import GeoProofs.SeriesLemmas
+
+namespace Geo
+open SeriesL
+
+/-! ### the rectangle is the tight bounding box -/
+
+theorem rect_tight (pts : Array Pt) (closed : Bool)
+    (h : ¬ ((closed && pts.size < 3) || pts.size < 2)) :
+    some (processPoints pts closed).rect = Driver.bboxSpec pts.toList := by
+  unfold processPoints
+  rw [if_neg h]
+  obtain ⟨L⟩ := pts
+  have hsz : 2 ≤ L.length ∧ (closed = true → 3 ≤ L.length) := by
+    cases closed <;> simp at h <;> simp <;> omega
+  match L, hsz with
+  | p :: rest, hsz =>
+    simp only [List.size_toArray, List.length_cons] at *
+    apply rect_of_fold
+    · split_ifs with hc
+      · simp only [Bool.and_eq_true, beq_iff_eq] at hc
+        have := hsz.2 hc.1
+        omega
+      · omega
+    · split_ifs with hc
+      · right
+        simp only [Bool.and_eq_true, beq_iff_eq] at hc
+        have := hsz.2 hc.1
+        refine ⟨by omega, ?_⟩
+        simpa using hc.2
+      · left; rfl
+
+theorem bboxSpec_tight (pts : List Pt) (b : Box) (h : Driver.bboxSpec pts = some b) :
+    (∀ p ∈ pts, b.min.x ≤ p.x ∧ p.x ≤ b.max.x ∧ b.min.y ≤ p.y ∧ p.y ≤ b.max.y) ∧
+    (∃ p ∈ pts, p.x = b.min.x) ∧ (∃ p ∈ pts, p.x = b.max.x) ∧
+    (∃ p ∈ pts, p.y = b.min.y) ∧ (∃ p ∈ pts, p.y = b.max.y) := by
+  match pts, h with
+  | p :: rest, h =>
+    rw [bboxSpec_cons] at h
+    injection h with h
+    subst h
+    obtain ⟨⟨h1, h2, h3, h4⟩, hall, a1, a2, a3, a4⟩ := bfold_spec rest ⟨p, p⟩
+    refine ⟨?_, ?_, ?_, ?_, ?_⟩
+    · intro q hq
+      rcases List.mem_cons.1 hq with rfl | hq
+      · exact ⟨h1, h2, h3, h4⟩
+      · exact hall q hq
+    · rcases a1 with a | ⟨q, hq, e⟩
+      · exact ⟨p, by simp, a.symm⟩
+      · exact ⟨q, by simp [hq], e⟩
+    · rcases a2 with a | ⟨q, hq, e⟩
+      · exact ⟨p, by simp, a.symm⟩
+      · exact ⟨q, by simp [hq], e⟩
+    · rcases a3 with a | ⟨q, hq, e⟩
+      · exact ⟨p, by simp, a.symm⟩
+      · exact ⟨q, by simp [hq], e⟩
+    · rcases a4 with a | ⟨q, hq, e⟩
+      · exact ⟨p, by simp, a.symm⟩
+      · exact ⟨q, by simp [hq], e⟩
+
+/-! ### convex flag = no two turns of opposite orientation -/
+
+theorem convex_iff (pts : Array Pt) (h : 3 ≤ pts.size) :
+    (processPoints pts true).convex = Driver.convexSpec pts.toList := by
+  obtain ⟨L⟩ := pts
+  simp only [List.size_toArray] at h
+  rw [processPoints_convex L h, convexSpec_cyc L (by omega), convFold _ 0 false (Or.inl rfl)]
+  simp
+
+/-! ### clockwise flag = sign of the signed area -/
+
+theorem clockwiseSpec_iff_area (pts : List Pt) :
+    Driver.clockwiseSpec pts = decide (Spec.area2 pts < 0) := rfl
+
+theorem clockwise_iff (pts : Array Pt) (h : 3 ≤ pts.size) :
+    (processPoints pts true).clockwise = Driver.clockwiseSpec pts.toList := by
+  obtain ⟨L⟩ := pts
+  simp only [List.size_toArray] at h
+  rw [processPoints_clockwise L h, clockwiseSpec_iff_area, area2_cyc L h]
+  have := cyc_sum_zero (fun j => L[j]!) (nptsL L)
+  congr 1
+  apply propext
+  constructor <;> intro <;> linarith
+
+/-! ### the specification is a property of the cyclic polygon, not of its encoding
+
+`v` is an open vertex cycle; `v ++ [v.head!]` is its closed encoding (closing vertex
+repeated); `v.rotate k` starts the same cycle at vertex `k`. -/
+
+theorem convexSpec_rotate (v : List Pt) (k : Nat) (hv : v ≠ []) :
+    Driver.convexSpec ((v.rotate k) ++ [(v.rotate k).head!]) = Driver.convexSpec (v ++ [v.head!]) := by
+  have hv' : v.rotate k ≠ [] := by simpa using hv
+  simp only [Driver.convexSpec]
+  rw [turnsOf_closed _ hv', turnsOf_closed _ hv, cycTurns_rotate,
+    (List.rotate_perm _ k).any_eq, (List.rotate_perm _ k).any_eq]
+
+theorem clockwiseSpec_rotate (v : List Pt) (k : Nat) (hv : v ≠ []) :
+    Driver.clockwiseSpec ((v.rotate k) ++ [(v.rotate k).head!])
+      = Driver.clockwiseSpec (v ++ [v.head!]) := by
+  by_cases h : 2 ≤ v.length
+  · rw [clockwiseSpec_iff_area, clockwiseSpec_iff_area, area2_closed _ (by simpa using h),
+      area2_closed _ h, cycCross_rotate, (List.rotate_perm _ k).sum_eq]
+  · have h1 : v.length = 1 := by
+      have := List.length_pos_iff.2 hv
+      omega
+    obtain ⟨a, rfl⟩ := List.length_eq_one_iff.1 h1
+    simp
+
+theorem convexSpec_closing (v : List Pt) (h : 3 ≤ v.length) (hne : v.getLast? ≠ v.head?) :
+    Driver.convexSpec (v ++ [v.head!]) = Driver.convexSpec v := by
+  have hv : v ≠ [] := by intro e; simp [e] at h
+  simp only [Driver.convexSpec]
+  rw [turnsOf_closed _ hv, turnsOf_open _ (by omega) hne]
+
+theorem clockwiseSpec_closing (v : List Pt) (h : 3 ≤ v.length) (hne : v.getLast? ≠ v.head?) :
+    Driver.clockwiseSpec (v ++ [v.head!]) = Driver.clockwiseSpec v := by
+  rw [clockwiseSpec_iff_area, clockwiseSpec_iff_area, area2_closed _ (by omega),
+    area2_open _ h hne]
+
+/-! ### hence the flags computed by `processPoints` do not depend on the encoding -/
+
+theorem processPoints_rotate_convex (v : List Pt) (k : Nat) (h : 2 ≤ v.length) :
+    (processPoints ((v.rotate k) ++ [(v.rotate k).head!]).toArray true).convex
+      = (processPoints (v ++ [v.head!]).toArray true).convex := by
+  have hv : v ≠ [] := by intro e; simp [e] at h
+  rw [convex_iff _ (by simp; omega), convex_iff _ (by simp; omega)]
+  exact convexSpec_rotate v k hv
+
+theorem processPoints_rotate_clockwise (v : List Pt) (k : Nat) (h : 2 ≤ v.length) :
+    (processPoints ((v.rotate k) ++ [(v.rotate k).head!]).toArray true).clockwise
+      = (processPoints (v ++ [v.head!]).toArray true).clockwise := by
+  have hv : v ≠ [] := by intro e; simp [e] at h
+  rw [clockwise_iff _ (by simp; omega), clockwise_iff _ (by simp; omega)]
+  exact clockwiseSpec_rotate v k hv
+
+theorem processPoints_closing_convex (v : List Pt) (h : 3 ≤ v.length)
+    (hne : v.getLast? ≠ v.head?) :
+    (processPoints (v ++ [v.head!]).toArray true).convex
+      = (processPoints v.toArray true).convex := by
+  rw [convex_iff _ (by simp; omega), convex_iff _ (by simpa using h)]
+  exact convexSpec_closing v h hne
+
+theorem processPoints_closing_clockwise (v : List Pt) (h : 3 ≤ v.length)
+    (hne : v.getLast? ≠ v.head?) :
+    (processPoints (v ++ [v.head!]).toArray true).clockwise
+      = (processPoints v.toArray true).clockwise := by
+  rw [clockwise_iff _ (by simp; omega), clockwise_iff _ (by simpa using h)]
+  exact clockwiseSpec_closing v h hne
+
+/-- start-vertex independence for the encoding WITHOUT the closing vertex -/
+theorem processPoints_rotate_convex_open (v : List Pt) (k : Nat) (h : 3 ≤ v.length)
+    (hne : v.getLast? ≠ v.head?) (hne' : (v.rotate k).getLast? ≠ (v.rotate k).head?) :
+    (processPoints (v.rotate k).toArray true).convex = (processPoints v.toArray true).convex := by
+  rw [← processPoints_closing_convex v h hne,
+    ← processPoints_closing_convex (v.rotate k) (by simpa using h) hne',
+    processPoints_rotate_convex v k (by omega)]
+
+theorem processPoints_rotate_clockwise_open (v : List Pt) (k : Nat) (h : 3 ≤ v.length)
+    (hne : v.getLast? ≠ v.head?) (hne' : (v.rotate k).getLast? ≠ (v.rotate k).head?) :
+    (processPoints (v.rotate k).toArray true).clockwise
+      = (processPoints v.toArray true).clockwise := by
+  rw [← processPoints_closing_clockwise v h hne,
+    ← processPoints_closing_clockwise (v.rotate k) (by simpa using h) hne',
+    processPoints_rotate_clockwise v k (by omega)]
+
+/-! ### non-vacuity: concrete rings (kernel evaluation, no `native_decide`) -/
+
+/-- a concave ring (the vertex (2,1) is a reflex vertex), counter-clockwise -/
+def exConcave : Array Pt := #[⟨0,0⟩, ⟨4,0⟩, ⟨4,4⟩, ⟨2,1⟩, ⟨0,4⟩, ⟨0,0⟩]
+/-- a convex ring traversed clockwise -/
+def exClockwise : Array Pt := #[⟨0,0⟩, ⟨0,4⟩, ⟨4,4⟩, ⟨4,0⟩, ⟨0,0⟩]
+
+example : (processPoints exConcave true).convex = false := by decide +kernel
+example : (processPoints exConcave true).clockwise = false := by decide +kernel
+example : Driver.convexSpec exConcave.toList = false := by decide +kernel
+example : (processPoints exClockwise true).convex = true := by decide +kernel
+example : (processPoints exClockwise true).clockwise = true := by decide +kernel
+example : Driver.clockwiseSpec exClockwise.toList = true := by decide +kernel
+example : Spec.area2 exClockwise.toList = -32 := by decide +kernel
+example : (processPoints exConcave true).rect = ⟨⟨0,0⟩,⟨4,4⟩⟩ := by decide +kernel
+-- same cycle, open encoding, started at another vertex: same flags
+example : (processPoints #[⟨4,4⟩, ⟨2,1⟩, ⟨0,4⟩, ⟨0,0⟩, ⟨4,0⟩] true).convex = false := by
+  decide +kernel
+-- collinear and duplicate vertices do not make a ring concave
+example : (processPoints #[⟨0,0⟩, ⟨2,0⟩, ⟨2,0⟩, ⟨4,0⟩, ⟨4,4⟩, ⟨0,0⟩] true).convex = true := by
+  decide +kernel
+
+/-! ### segment rule -/
+
+theorem numSegments_spec (pts : Array Pt) (closed : Bool) :
+    numSegmentsOf pts closed = (Spec.edges pts.toList closed).length := by
+  obtain ⟨L⟩ := pts
+  cases closed
+  · simp only [numSegmentsOf, Spec.edges, List.size_toArray, Bool.false_eq_true, if_false,
+      List.length_zip, List.length_tail]
+    split_ifs <;> omega
+  · simp only [numSegmentsOf, if_true, List.size_toArray]
+    split_ifs with h1 h2
+    · simp [Spec.edges, h1]
+    · rw [edges_cyc L (by omega), List.length_map, List.length_range, nptsL]
+      simp only [List.getElem!_toArray, beq_iff_eq] at h2
+      rw [if_pos h2]
+    · rw [edges_cyc L (by omega), List.length_map, List.length_range, nptsL]
+      simp only [List.getElem!_toArray, beq_iff_eq] at h2
+      rw [if_neg h2]
+
+theorem segmentAt_spec (pts : Array Pt) (closed : Bool) (i : Nat)
+    (h : i < numSegmentsOf pts closed) :
+    (Spec.edges pts.toList closed)[i]? = some ((segmentAtOf pts i).a, (segmentAtOf pts i).b) := by
+  obtain ⟨L⟩ := pts
+  cases closed
+  · simp only [numSegmentsOf, Bool.false_eq_true, if_false, List.size_toArray] at h
+    have h2 : i + 1 < L.length := by split_ifs at h <;> omega
+    simp only [Spec.edges, Bool.false_eq_true, if_false, segmentAtOf, List.getElem!_toArray,
+      List.size_toArray]
+    rw [zip_tail_getElem? L i h2, if_neg (by simp; omega)]
+  · simp only [numSegmentsOf, if_true, List.size_toArray, List.getElem!_toArray, beq_iff_eq] at h
+    have h3 : 3 ≤ L.length := by split_ifs at h <;> omega
+    have hn : i < nptsL L := by
+      unfold nptsL; split_ifs at h ⊢ <;> omega
+    rw [edges_cyc L h3]
+    simp only [List.getElem?_map, List.getElem?_range hn, Option.map_some, segmentAtOf,
+      List.getElem!_toArray, List.size_toArray, beq_iff_eq]
+    congr 2
+    unfold nptsL at hn ⊢
+    split_ifs at hn ⊢ with hc h4 h4
+    · omega
+    · by_cases h5 : i + 1 < L.length - 1
+      · rw [Nat.mod_eq_of_lt h5]
+      · have : i + 1 = L.length - 1 := by omega
+        rw [this, Nat.mod_self, hc]
+    · have : i + 1 = L.length := by omega
+      rw [this, Nat.mod_self]
+    · rw [Nat.mod_eq_of_lt (by omega)]
+end Geo
+
+#print axioms Geo.rect_tight
+#print axioms Geo.bboxSpec_tight
+#print axioms Geo.numSegments_spec
+#print axioms Geo.segmentAt_spec
+#print axioms Geo.clockwiseSpec_iff_area
+#print axioms Geo.clockwise_iff
+#print axioms Geo.convex_iff
+#print axioms Geo.convexSpec_rotate
+#print axioms Geo.clockwiseSpec_rotate
+#print axioms Geo.convexSpec_closing
+#print axioms Geo.clockwiseSpec_closing
+#print axioms Geo.processPoints_rotate_convex
+#print axioms Geo.processPoints_rotate_clockwise
+#print axioms Geo.processPoints_closing_convex
+#print axioms Geo.processPoints_closing_clockwise
+#print axioms Geo.processPoints_rotate_convex_open
+#print axioms Geo.processPoints_rotate_clockwise_open
